@@ -264,7 +264,7 @@ func c14Explore(p detProg, kinds string, bound int, shard, nshards int, r *Resul
 				for _, s := range sites {
 					tags = append(tags, "site:"+s)
 				}
-				r.Fail("NONDET:"+stage+" depends on "+kindName(kinds), tags,
+				r.Fail("NONDET:"+stage+" depends on "+choiceKindName(kinds), tags,
 					fmt.Sprintf("%s// choices (point:alternative): %s at %s", text, fmtChoices(choices), strings.Join(sites, ", ")),
 					fmt.Sprintf("default execution:\n%s\nthis execution:\n%s", firstN(base.key(), 600), firstN(last.key(), 600)))
 			}
@@ -276,7 +276,7 @@ func c14Explore(p detProg, kinds string, bound int, shard, nshards int, r *Resul
 	r.Note("executions:"+p.Name+":"+kinds, res.Execs)
 	r.Note("max-choice-points:"+p.Name+":"+kinds, res.MaxPoints)
 	r.Note("unexplored-large-map-ranges", res.LargeMaps)
-	r.Sample(fmt.Sprintf("%s// %d executions with <= %d deviating %s choice(s), up to %d choice points", text, res.Execs, bound, kindName(kinds), res.MaxPoints))
+	r.Sample(fmt.Sprintf("%s// %d executions with <= %d deviating %s choice(s), up to %d choice points", text, res.Execs, bound, choiceKindName(kinds), res.MaxPoints))
 	if res.Diverged != "" {
 		r.Fail("HARNESS:replay divergence (nondeterminism escaped the chooser)", []string{"prog:" + p.Name}, text, res.Diverged)
 	}
@@ -285,7 +285,7 @@ func c14Explore(p detProg, kinds string, bound int, shard, nshards int, r *Resul
 	}
 }
 
-func kindName(k string) string {
+func choiceKindName(k string) string {
 	switch k {
 	case "m":
 		return "map iteration order"
